@@ -55,11 +55,35 @@ def run_harness(h, tier, playback=True):
             out["status"] = "failed"
             m = re.search(r"Concrete playback unit test for `[^`]*`:\n```\n(.*?)```", txt, re.S)
             if m:
-                out["cex"] = {"harness": out["harness"], "playback_test": m.group(1)}
+                vals = [[int(x) for x in v.split(",") if x.strip()] for v in re.findall(r"vec!\[([0-9, ]*)\],", m.group(1).split("concrete_vals", 1)[-1])]
+                out["cex"] = {"harness": out["harness"], "concrete_vals": vals, "playback_test": m.group(1)}
+                out["cex"]["replay"] = replay(h, vals)
     else:
         out["status"] = "undecided"
         out["reason"] = "no verdict: " + txt[-600:].replace("\n", " | ")
     return out
+
+def replay(h, vals):
+    """re-run the harness body on the recorded concrete values against the real crates under plain
+    `cargo test` (no Kani): the test panics iff the input really fails on the real code"""
+    crate = os.path.join(VERIF, "kani", h["crate"])
+    env = dict(os.environ)
+    env["CARGO_NET_OFFLINE"] = "true"
+    env["CARGO_TARGET_DIR"] = os.path.join(VERIF, ".cache", "replay-target", h["crate"])
+    env["RUSTFLAGS"] = (env.get("RUSTFLAGS", "") + " --cfg " + GUARD).strip()
+    env["VERIF_REPLAY_HARNESS"] = h["harness"]
+    env["VERIF_REPLAY_VALS"] = ";".join(",".join(str(b) for b in v) for v in vals)
+    cmd = ["cargo", "test", "--offline", "--lib", "replay_from_env", "--", "--nocapture"]
+    try:
+        p = subprocess.run(cmd, cwd=crate, env=env, capture_output=True, text=True, timeout=1800)
+    except subprocess.TimeoutExpired:
+        return {"verdict": "replay timed out", "cmd": " ".join(cmd)}
+    txt = p.stdout + p.stderr
+    m = re.search(r"REPLAY-RESULT: (.*)", txt)
+    pan = re.search(r"panicked at [^\n]*\n[^\n]*", txt)
+    return {"verdict": m.group(1) if m else "no verdict (build failed?)", "confirmed": bool(m and "CONFIRMED" in m.group(1)),
+            "panic": pan.group(0) if pan else None,
+            "cmd": "cd kani/%s && VERIF_REPLAY_HARNESS=%s VERIF_REPLAY_VALS='%s' %s" % (h["crate"], h["harness"], env["VERIF_REPLAY_VALS"], " ".join(cmd))}
 
 if __name__ == "__main__":
     import sys
